@@ -31,16 +31,23 @@ CONSTANTS MInst, Creators, PreC, RecsPer, Registrars, PreG, UnregG, MeterOf,
           TInst, TUsers, PreT, TracerOf, SpansPer, XKinds, UsesPer,
           Script,      \* installer (MInst, TInst, XI) -> sequence over {"self", "r1", "r2"}
           Kept,        \* owners / tracer users holding a reference to the default provider
+          RefuseReg,   \* callbacks whose RegisterCallback the delegate SDK refuses (returns an error)
+          RefuseInst,  \* owners whose instrument constructor the delegate SDK refuses
+          Invokers,    \* processes that invoke a registered callback as an SDK may: overlapping, own Observer each
+          CbOf,        \* invoker -> registrar whose callback it invokes
+          SharedObs,   \* shape switch (deviation): ONE unwrapping Observer per callback instead of one per invocation
+          Shape,       \* Meter() / Tracer() on the default provider: "atomic" (the code: one critical section) |
+                       \* "split" (check, unlocked config computation, insert WITHOUT re-check: deviation) | "recheck"
           Patched, AllowKnown
 
-VARIABLES M, T, X, S, pc, cnt, mon
-vars == <<M, T, X, S, pc, cnt, mon>>
+VARIABLES M, T, X, S, V, pc, cnt, mon
+vars == <<M, T, X, S, V, pc, cnt, mon>>
 
 XI == {"xi." \o k : k \in XKinds}
 XU == {"xu." \o k : k \in XKinds}
 KindOf(x) == CHOOSE k \in XKinds : x = "xi." \o k \/ x = "xu." \o k
 Owners == Creators \cup Registrars
-Procs == MInst \cup Owners \cup TInst \cup TUsers \cup XI \cup XU
+Procs == MInst \cup Owners \cup TInst \cup TUsers \cup XI \cup XU \cup Invokers
 Meters == {MeterOf[x] : x \in Owners}
 Tracers == {TracerOf[u] : u \in TUsers}
 Kinds == {"mp", "tp"} \cup XKinds
@@ -61,7 +68,7 @@ Init ==
           registry |-> [m \in Meters |-> SeqOf({g \in PreG : MeterOf[g] = m})],
           unreg |-> [g \in Registrars |-> IF g \in PreG THEN "pre" ELSE "none"],
           umu |-> [g \in Registrars |-> "none"], utmp |-> [g \in Registrars |-> "none"],
-          todo |-> {}, cur |-> "none",
+          todo |-> {}, cur |-> "none", tried |-> {},
           handle |-> [x \in Owners |-> IF x \in PreC \cup PreG THEN "global" ELSE "none"],
           ikind |-> [x \in Owners |-> IF x \in PreC \cup PreG THEN "global" ELSE "none"],
           rkind |-> [g \in Registrars |-> IF g \in PreG THEN "global" ELSE "none"]]
@@ -71,6 +78,7 @@ Init ==
   /\ X = [g |-> [k \in XKinds |-> "global"], del |-> [k \in XKinds |-> "none"], once |-> [k \in XKinds |-> "free"]]
   /\ S = [val |-> [i \in Insts |-> "none"],    \* the provider passed to the Set call in progress
           cur |-> [i \in Insts |-> "none"]]    \* `current` as read at the beginning of that call
+  /\ V = [uo |-> [g \in Registrars |-> "none"]]    \* the shared unwrapping Observer (SharedObs): whose Observer it wraps
   /\ pc = [p \in Procs |->
              IF p \in Insts THEN (IF Len(Script[p]) = 0 THEN "done" ELSE "idle")
              ELSE IF p \in PreC THEN "rec"
@@ -105,103 +113,128 @@ KindK(i) == IF i \in MInst THEN "mp" ELSE IF i \in TInst THEN "tp" ELSE KindOf(i
 SBegin(i) == /\ pc[i] = "idle"
              /\ LET a == Script[i][cnt[i] + 1] IN
                 S' = [S EXCEPT !.val[i] = IF a = "self" THEN Glob(i) ELSE a]
-             /\ Go(i, "call") /\ UNCHANGED <<M, T, X, cnt, mon>>
+             /\ Go(i, "call") /\ UNCHANGED <<M, T, X, V, cnt, mon>>
 SCall(i) == /\ pc[i] = "call"
             /\ S' = [S EXCEPT !.cur[i] = Glob(i)]
             /\ Go(i, IF Glob(i) = "global" /\ S.val[i] = "global" THEN "ret" ELSE "once")
-            /\ UNCHANGED <<M, T, X, cnt, mon>>
+            /\ UNCHANGED <<M, T, X, V, cnt, mon>>
 SRet(i) == /\ pc[i] = "ret"
            /\ cnt' = [cnt EXCEPT ![i] = @ + 1]
            /\ Go(i, IF cnt[i] + 1 >= Len(Script[i]) THEN "done" ELSE "idle")
            /\ mon' = IF S.val[i] \in Real THEN [mon EXCEPT !.setRet[KindK(i)] = TRUE] ELSE mon
            /\ S' = [S EXCEPT !.val[i] = "none", !.cur[i] = "none"]
-           /\ UNCHANGED <<M, T, X>>
+           /\ UNCHANGED <<M, T, X, V>>
 
 (* ------------------------------------------------ SetMeterProvider (state.go:155, meter.go:37,126,596) *)
-Pending == IF M.cur = "none" THEN {} ELSE {x \in M.minst[M.cur] : M.idel[x] = "none"}
+Pending == IF M.cur = "none" THEN {} ELSE {x \in M.minst[M.cur] : x \notin M.tried}
+(* the delegate refuses g's callback: scripted for g, or a consequence of g's own instrument having been refused *)
+Refused(g) == g \in RefuseReg \cup RefuseInst
 (* sync.Once: the first caller runs the body; the body delegates only if `current` is the default provider *)
 IOnce(i) == /\ pc[i] = "once"
             /\ IF M.once = "free"
                  THEN IF S.cur[i] = "global" THEN (M' = [M EXCEPT !.once = "running"] /\ Go(i, "plock"))
                                              ELSE (M' = [M EXCEPT !.once = "done"] /\ Go(i, "store"))
                  ELSE (UNCHANGED M /\ Go(i, "oncewait"))
-            /\ UNCHANGED <<T, X, S, cnt, mon>>
-IOnceWait(i) == pc[i] = "oncewait" /\ M.once = "done" /\ Go(i, "store") /\ UNCHANGED <<M, T, X, S, cnt, mon>>
+            /\ UNCHANGED <<T, X, S, V, cnt, mon>>
+IOnceWait(i) == pc[i] = "oncewait" /\ M.once = "done" /\ Go(i, "store") /\ UNCHANGED <<M, T, X, S, V, cnt, mon>>
 IProvLock(i) == /\ pc[i] = "plock" /\ M.pmtx = "none"
                 /\ M' = [M EXCEPT !.pmtx = i, !.pdel = S.val[i], !.todo = M.meters]
                 /\ mon' = [mon EXCEPT !.first["mp"] = IF @ = "none" THEN S.val[i] ELSE @]
                 /\ Go(i, IF M.meters = {} THEN "punlock" ELSE "mlock")
-                /\ UNCHANGED <<T, X, S, cnt>>
+                /\ UNCHANGED <<T, X, S, V, cnt>>
 IMeterLock(i, m) == /\ pc[i] = "mlock" /\ m \in M.todo /\ M.mmtx[m] = "none"
                     /\ M' = [M EXCEPT !.mmtx[m] = i, !.cur = m] /\ Go(i, "mdeleg")
-                    /\ UNCHANGED <<T, X, S, cnt, mon>>
+                    /\ UNCHANGED <<T, X, S, V, cnt, mon>>
 IDelegateMeter(i) == /\ pc[i] = "mdeleg" /\ M' = [M EXCEPT !.mdel[M.cur] = M.pdel] /\ Go(i, "walk")
-                     /\ UNCHANGED <<T, X, S, cnt, mon>>
-IInst(i, x) == /\ pc[i] = "walk" /\ x \in Pending /\ M' = [M EXCEPT !.idel[x] = M.pdel]
-               /\ UNCHANGED <<T, X, S, pc, cnt, mon>>
+                     /\ UNCHANGED <<T, X, S, V, cnt, mon>>
+(* inst.setDelegate: a refused constructor is reported to the error handler and affects only this instrument *)
+IInst(i, x) == /\ pc[i] = "walk" /\ x \in Pending
+               /\ M' = [M EXCEPT !.tried = @ \cup {x}, !.idel[x] = IF x \in RefuseInst THEN @ ELSE M.pdel]
+               /\ UNCHANGED <<T, X, S, V, pc, cnt, mon>>
 IRegLock(i) == /\ pc[i] = "walk" /\ Pending = {} /\ M.registry[M.cur] # <<>>
                /\ LET g == Head(M.registry[M.cur]) IN
                   /\ M.umu[g] = "none" /\ M' = [M EXCEPT !.umu[g] = i]
-               /\ Go(i, "reg") /\ UNCHANGED <<T, X, S, cnt, mon>>
+               /\ Go(i, "reg") /\ UNCHANGED <<T, X, S, V, cnt, mon>>
 IReg(i) == /\ pc[i] = "reg"
            /\ LET g == Head(M.registry[M.cur]) IN
-              IF M.unreg[g] = "nil"      \* Unregister already called: skip
+              IF M.unreg[g] = "nil" \/ Refused(g)   \* Unregister already called: skip; refused: reported, unreg kept
                 THEN /\ M' = [M EXCEPT !.umu[g] = "none", !.registry[M.cur] = Tail(@)]
                      /\ UNCHANGED mon
                 ELSE /\ M' = [M EXCEPT !.umu[g] = "none", !.registry[M.cur] = Tail(@), !.unreg[g] = "sdk"]
                      /\ mon' = SdkRegister(mon, g)
-           /\ Go(i, "walk") /\ UNCHANGED <<T, X, S, cnt>>
+           /\ Go(i, "walk") /\ UNCHANGED <<T, X, S, V, cnt>>
 IMeterUnlock(i) == /\ pc[i] = "walk" /\ Pending = {} /\ M.registry[M.cur] = <<>>
                    /\ M' = [M EXCEPT !.mmtx[M.cur] = "none", !.minst[M.cur] = {}, !.todo = @ \ {M.cur}, !.cur = "none"]
                    /\ Go(i, IF M.todo \ {M.cur} = {} THEN "punlock" ELSE "mlock")
-                   /\ UNCHANGED <<T, X, S, cnt, mon>>
+                   /\ UNCHANGED <<T, X, S, V, cnt, mon>>
 IProvUnlock(i) == /\ pc[i] = "punlock" /\ M' = [M EXCEPT !.pmtx = "none", !.meters = {}, !.once = "done"]
-                  /\ Go(i, "store") /\ UNCHANGED <<T, X, S, cnt, mon>>
-IStore(i) == pc[i] = "store" /\ M' = [M EXCEPT !.gmp = S.val[i]] /\ Go(i, "ret") /\ UNCHANGED <<T, X, S, cnt, mon>>
+                  /\ Go(i, "store") /\ UNCHANGED <<T, X, S, V, cnt, mon>>
+IStore(i) == pc[i] = "store" /\ M' = [M EXCEPT !.gmp = S.val[i]] /\ Go(i, "ret") /\ UNCHANGED <<T, X, S, V, cnt, mon>>
 
 (* ------------------------------------------------ creators and registrars: Meter, instrument (meter.go:55,149-496) *)
 (* OGet = GetMeterProvider(); an owner in Kept uses its reference to the default provider instead *)
 OGet(c) == /\ pc[c] = "idle"
            /\ IF M.gmp # "global" /\ c \notin Kept THEN (M' = [M EXCEPT !.handle[c] = M.gmp] /\ Go(c, "inst"))
                                                   ELSE (UNCHANGED M /\ Go(c, "pm"))
-           /\ UNCHANGED <<T, X, S, cnt, mon>>
+           /\ UNCHANGED <<T, X, S, V, cnt, mon>>
+(* meterProvider.Meter: the code checks the delegate and inserts the placeholder in ONE critical section
+   (Shape = "atomic"). "split" / "recheck": check, unlocked computation of the config / key, second critical section
+   without / with a re-check of the delegate -- a placeholder inserted after the hand-over is an orphan. *)
 OMeter(c) == /\ pc[c] = "pm" /\ M.pmtx = "none"
-             /\ M' = IF M.pdel # "none" THEN [M EXCEPT !.handle[c] = "fwd"]
-                                        ELSE [M EXCEPT !.handle[c] = "global", !.meters = @ \cup {MeterOf[c]}]
-             /\ Go(c, "inst") /\ UNCHANGED <<T, X, S, cnt, mon>>
+             /\ IF M.pdel # "none" THEN (M' = [M EXCEPT !.handle[c] = "fwd"] /\ Go(c, "inst"))
+                ELSE IF Shape = "atomic"
+                  THEN (M' = [M EXCEPT !.handle[c] = "global", !.meters = @ \cup {MeterOf[c]}] /\ Go(c, "inst"))
+                  ELSE (UNCHANGED M /\ Go(c, "pmcompute"))
+             /\ UNCHANGED <<T, X, S, V, cnt, mon>>
+OMeterCompute(c) == pc[c] = "pmcompute" /\ Go(c, "pminsert") /\ UNCHANGED <<M, T, X, S, V, cnt, mon>>
+OMeterInsert(c) == /\ pc[c] = "pminsert" /\ M.pmtx = "none"
+                   /\ M' = IF M.pdel = "none" THEN [M EXCEPT !.handle[c] = "global", !.meters = @ \cup {MeterOf[c]}]
+                           ELSE IF Shape = "recheck" THEN [M EXCEPT !.handle[c] = "fwd"]
+                           ELSE [M EXCEPT !.handle[c] = "orphan"]
+                   /\ Go(c, "inst") /\ UNCHANGED <<T, X, S, V, cnt, mon>>
 (* handle: "global" = placeholder meter; "fwd" = the first SDK's meter handed out by the default provider;
    "r1"/"r2" = a meter of the SDK that Get returned.  ikind: "global" = placeholder instrument (delegate in idel),
    "fwd:<sdk>" is represented by idel[c] set at creation. *)
+(* a constructor forwarded to (or called on) an SDK that refuses it returns the error to the caller: nothing to use.
+   On an orphan meter (Shape = "split") the instrument is a placeholder nobody will ever connect. *)
 OInst(c) == /\ pc[c] = "inst"
-            /\ LET m == MeterOf[c] IN
-               IF M.handle[c] \in Real THEN M' = [M EXCEPT !.ikind[c] = M.handle[c]]
-               ELSE IF M.handle[c] = "fwd" THEN M' = [M EXCEPT !.ikind[c] = "fwd", !.idel[c] = M.pdel]
-               ELSE /\ M.mmtx[m] = "none"
-                    /\ M' = IF M.mdel[m] # "none" THEN [M EXCEPT !.ikind[c] = "fwd", !.idel[c] = M.mdel[m]]
+            /\ LET m == MeterOf[c]
+                   sdkside == M.handle[c] \in Real \cup {"fwd"} \/ (M.handle[c] = "global" /\ M.mdel[m] # "none") IN
+               /\ M.handle[c] = "global" => M.mmtx[m] = "none"
+               /\ IF sdkside /\ c \in RefuseInst THEN M' = [M EXCEPT !.ikind[c] = "refused"]
+                  ELSE IF M.handle[c] \in Real THEN M' = [M EXCEPT !.ikind[c] = M.handle[c]]
+                  ELSE IF M.handle[c] = "fwd" THEN M' = [M EXCEPT !.ikind[c] = "fwd", !.idel[c] = M.pdel]
+                  ELSE IF M.handle[c] = "orphan" THEN M' = [M EXCEPT !.ikind[c] = "orphan"]
+                  ELSE M' = IF M.mdel[m] # "none" THEN [M EXCEPT !.ikind[c] = "fwd", !.idel[c] = M.mdel[m]]
                                                   ELSE [M EXCEPT !.ikind[c] = "global", !.minst[m] = @ \cup {c}]
-            /\ Go(c, IF c \in Creators THEN "rec" ELSE "register") /\ UNCHANGED <<T, X, S, cnt, mon>>
+               /\ Go(c, IF sdkside /\ c \in RefuseInst THEN "done" ELSE IF c \in Creators THEN "rec" ELSE "register")
+            /\ UNCHANGED <<T, X, S, V, cnt, mon>>
 (* Add / Record: delegate.Load() then forward or drop (instruments.go:330) *)
 RCall(c) == /\ c \in Creators /\ pc[c] = "rec" /\ Go(c, "load")
-            /\ mon' = [mon EXCEPT !.after[c] = mon.setRet["mp"]] /\ UNCHANGED <<M, T, X, S, cnt>>
+            /\ mon' = [mon EXCEPT !.after[c] = mon.setRet["mp"]] /\ UNCHANGED <<M, T, X, S, V, cnt>>
 RLoad(c) == /\ c \in Creators /\ pc[c] = "load"
-            /\ mon' = IF M.ikind[c] \in Real THEN mon
-                      ELSE Judge(mon, c, "mp", TRUE, M.idel[c], "lost-after-set")
+            /\ mon' = IF M.ikind[c] \in Real \/ (M.ikind[c] = "global" /\ c \in RefuseInst) THEN mon
+                      ELSE Judge(mon, c, "mp", TRUE, IF M.ikind[c] = "orphan" THEN "none" ELSE M.idel[c], "lost-after-set")
             /\ cnt' = [cnt EXCEPT ![c] = @ + 1]
-            /\ Go(c, IF cnt[c] + 1 >= RecsPer THEN "done" ELSE "rec") /\ UNCHANGED <<M, T, X, S>>
+            /\ Go(c, IF cnt[c] + 1 >= RecsPer THEN "done" ELSE "rec") /\ UNCHANGED <<M, T, X, S, V>>
 
 (* ------------------------------------------------ RegisterCallback / Unregister (meter.go:499,614) *)
 GRegister(g) ==
   /\ g \in Registrars /\ pc[g] = "register"
   /\ LET m == MeterOf[g]
-         fwd == [M EXCEPT !.rkind[g] = "sdk", !.unreg[g] = "sdk"] IN
-     IF M.handle[g] \in Real \cup {"fwd"} THEN (M' = fwd /\ mon' = [SdkRegister(mon, g) EXCEPT !.regRet = @ \cup {g}])
-     ELSE /\ M.mmtx[m] = "none"
-          /\ IF M.mdel[m] # "none" THEN (M' = fwd /\ mon' = [SdkRegister(mon, g) EXCEPT !.regRet = @ \cup {g}])
-             ELSE /\ M' = [M EXCEPT !.rkind[g] = "global", !.unreg[g] = "pre", !.registry[m] = Append(@, g)]
-                  /\ mon' = [mon EXCEPT !.regRet = @ \cup {g}]
-  /\ Go(g, IF g \in UnregG THEN "registered" ELSE "done") /\ UNCHANGED <<T, X, S, cnt>>
+         fwd == [M EXCEPT !.rkind[g] = "sdk", !.unreg[g] = "sdk"]
+         sdkside == M.handle[g] \in Real \cup {"fwd"} \/ (M.handle[g] = "global" /\ M.mdel[m] # "none") IN
+     /\ M.handle[g] = "global" => M.mmtx[m] = "none"
+     /\ IF sdkside /\ Refused(g) THEN (M' = [M EXCEPT !.rkind[g] = "refused"] /\ UNCHANGED mon)   \* error returned to the caller
+        ELSE IF sdkside THEN (M' = fwd /\ mon' = [SdkRegister(mon, g) EXCEPT !.regRet = @ \cup {g}])
+        ELSE IF M.handle[g] = "orphan"     \* registry of a meter nobody will ever hand over
+          THEN (M' = [M EXCEPT !.rkind[g] = "orphan", !.unreg[g] = "nil"] /\ mon' = [mon EXCEPT !.regRet = @ \cup {g}])
+          ELSE /\ M' = [M EXCEPT !.rkind[g] = "global", !.unreg[g] = "pre", !.registry[m] = Append(@, g)]
+               /\ mon' = [mon EXCEPT !.regRet = @ \cup {g}]
+     /\ Go(g, IF (sdkside /\ Refused(g)) \/ g \notin UnregG THEN "done" ELSE "registered")
+  /\ UNCHANGED <<T, X, S, V, cnt>>
 GUnregCall(g) == /\ g \in Registrars /\ pc[g] = "registered" /\ Go(g, "ulock")
-                 /\ mon' = [mon EXCEPT !.unregCalled = @ \cup {g}] /\ UNCHANGED <<M, T, X, S, cnt>>
+                 /\ mon' = [mon EXCEPT !.unregCalled = @ \cup {g}] /\ UNCHANGED <<M, T, X, S, V, cnt>>
 GUnregLock(g) ==
   /\ g \in Registrars /\ pc[g] = "ulock"
   /\ IF M.rkind[g] = "sdk"      \* the SDK's own registration was handed out: no global lock involved
@@ -211,7 +244,7 @@ GUnregLock(g) ==
                ELSE IF Patched
                  THEN (M' = [M EXCEPT !.utmp[g] = M.unreg[g], !.unreg[g] = "nil"] /\ Go(g, "ucall"))
                  ELSE (M' = [M EXCEPT !.utmp[g] = M.unreg[g], !.umu[g] = g] /\ Go(g, "ucall"))
-  /\ UNCHANGED <<T, X, S, cnt>>
+  /\ UNCHANGED <<T, X, S, V, cnt>>
 GUnreg(g) ==
   /\ g \in Registrars /\ pc[g] = "ucall"
   /\ LET m == MeterOf[g]
@@ -220,11 +253,11 @@ GUnreg(g) ==
        THEN /\ M.mmtx[m] = "none"
             /\ M' = rel([M EXCEPT !.registry[m] = Without(@, g)]) /\ UNCHANGED mon
        ELSE /\ M' = rel(M) /\ mon' = SdkUnregister(mon, g)
-  /\ Go(g, "uret") /\ UNCHANGED <<T, X, S, cnt>>
+  /\ Go(g, "uret") /\ UNCHANGED <<T, X, S, V, cnt>>
 GURet(g) == /\ g \in Registrars /\ pc[g] = "uret" /\ Go(g, "done")
             /\ mon' = [mon EXCEPT !.unregRet = @ \cup {g},
                                   !.bad = @ \cup (IF mon.sdkAct[g] > 0 THEN {"active-after-unregister"} ELSE {})]
-            /\ UNCHANGED <<M, T, X, S, cnt>>
+            /\ UNCHANGED <<M, T, X, S, V, cnt>>
 
 (* ------------------------------------------------ tracers (state.go:94, trace.go:58,76,131) *)
 TIOnce(i) == /\ pc[i] = "once"
@@ -232,34 +265,43 @@ TIOnce(i) == /\ pc[i] = "once"
                   THEN IF S.cur[i] = "global" THEN (T' = [T EXCEPT !.once = "running"] /\ Go(i, "plock"))
                                               ELSE (T' = [T EXCEPT !.once = "done"] /\ Go(i, "store"))
                   ELSE (UNCHANGED T /\ Go(i, "oncewait"))
-             /\ UNCHANGED <<M, X, S, cnt, mon>>
-TIOnceWait(i) == pc[i] = "oncewait" /\ T.once = "done" /\ Go(i, "store") /\ UNCHANGED <<M, T, X, S, cnt, mon>>
+             /\ UNCHANGED <<M, X, S, V, cnt, mon>>
+TIOnceWait(i) == pc[i] = "oncewait" /\ T.once = "done" /\ Go(i, "store") /\ UNCHANGED <<M, T, X, S, V, cnt, mon>>
 TIProvLock(i) == /\ pc[i] = "plock" /\ T.mtx = "none"
                  /\ T' = [T EXCEPT !.mtx = i, !.pdel = S.val[i], !.todo = T.tracers] /\ Go(i, "walk")
                  /\ mon' = [mon EXCEPT !.first["tp"] = IF @ = "none" THEN S.val[i] ELSE @]
-                 /\ UNCHANGED <<M, X, S, cnt>>
+                 /\ UNCHANGED <<M, X, S, V, cnt>>
 TITracer(i, t) == /\ pc[i] = "walk" /\ t \in T.todo
-                  /\ T' = [T EXCEPT !.tdel[t] = T.pdel, !.todo = @ \ {t}] /\ UNCHANGED <<M, X, S, pc, cnt, mon>>
+                  /\ T' = [T EXCEPT !.tdel[t] = T.pdel, !.todo = @ \ {t}] /\ UNCHANGED <<M, X, S, V, pc, cnt, mon>>
 TIProvUnlock(i) == /\ pc[i] = "walk" /\ T.todo = {}
                    /\ T' = [T EXCEPT !.mtx = "none", !.tracers = {}, !.once = "done"] /\ Go(i, "store")
-                   /\ UNCHANGED <<M, X, S, cnt, mon>>
-TIStore(i) == pc[i] = "store" /\ T' = [T EXCEPT !.gtp = S.val[i]] /\ Go(i, "ret") /\ UNCHANGED <<M, X, S, cnt, mon>>
+                   /\ UNCHANGED <<M, X, S, V, cnt, mon>>
+TIStore(i) == pc[i] = "store" /\ T' = [T EXCEPT !.gtp = S.val[i]] /\ Go(i, "ret") /\ UNCHANGED <<M, X, S, V, cnt, mon>>
 UGet(u) == /\ pc[u] = "idle"
            /\ IF T.gtp # "global" /\ u \notin Kept THEN (T' = [T EXCEPT !.handle[u] = T.gtp] /\ Go(u, "start"))
                                                   ELSE (UNCHANGED T /\ Go(u, "pt"))
-           /\ UNCHANGED <<M, X, S, cnt, mon>>
+           /\ UNCHANGED <<M, X, S, V, cnt, mon>>
 UTracer(u) == /\ pc[u] = "pt" /\ T.mtx = "none"
-              /\ T' = IF T.pdel # "none" THEN [T EXCEPT !.handle[u] = "fwd"]
-                                         ELSE [T EXCEPT !.handle[u] = "global", !.tracers = @ \cup {TracerOf[u]}]
-              /\ Go(u, "start") /\ UNCHANGED <<M, X, S, cnt, mon>>
+              /\ IF T.pdel # "none" THEN (T' = [T EXCEPT !.handle[u] = "fwd"] /\ Go(u, "start"))
+                 ELSE IF Shape = "atomic"
+                   THEN (T' = [T EXCEPT !.handle[u] = "global", !.tracers = @ \cup {TracerOf[u]}] /\ Go(u, "start"))
+                   ELSE (UNCHANGED T /\ Go(u, "ptcompute"))
+              /\ UNCHANGED <<M, X, S, V, cnt, mon>>
+UTracerCompute(u) == pc[u] = "ptcompute" /\ Go(u, "ptinsert") /\ UNCHANGED <<M, T, X, S, V, cnt, mon>>
+UTracerInsert(u) == /\ pc[u] = "ptinsert" /\ T.mtx = "none"
+                    /\ T' = IF T.pdel = "none" THEN [T EXCEPT !.handle[u] = "global", !.tracers = @ \cup {TracerOf[u]}]
+                            ELSE IF Shape = "recheck" THEN [T EXCEPT !.handle[u] = "fwd"]
+                            ELSE [T EXCEPT !.handle[u] = "orphan"]
+                    /\ Go(u, "start") /\ UNCHANGED <<M, X, S, V, cnt, mon>>
 UCall(u) == /\ pc[u] = "start" /\ Go(u, "load")
-            /\ mon' = [mon EXCEPT !.after[u] = mon.setRet["tp"]] /\ UNCHANGED <<M, T, X, S, cnt>>
+            /\ mon' = [mon EXCEPT !.after[u] = mon.setRet["tp"]] /\ UNCHANGED <<M, T, X, S, V, cnt>>
 ULoad(u) == /\ pc[u] = "load"
             /\ mon' = IF T.handle[u] \in Real THEN mon
-                      ELSE Judge(mon, u, "tp", TRUE, IF T.handle[u] = "fwd" THEN T.pdel ELSE T.tdel[TracerOf[u]],
+                      ELSE Judge(mon, u, "tp", TRUE, IF T.handle[u] = "fwd" THEN T.pdel
+                                                     ELSE IF T.handle[u] = "orphan" THEN "none" ELSE T.tdel[TracerOf[u]],
                                  "span-lost-after-set")
             /\ cnt' = [cnt EXCEPT ![u] = @ + 1]
-            /\ Go(u, IF cnt[u] + 1 >= SpansPer THEN "done" ELSE "start") /\ UNCHANGED <<M, T, X, S>>
+            /\ Go(u, IF cnt[u] + 1 >= SpansPer THEN "done" ELSE "start") /\ UNCHANGED <<M, T, X, S, V>>
 
 (* ------------------------------------------------ propagator / error handler (propagator.go, handler.go) *)
 XOnce(i) == /\ pc[i] = "once"
@@ -269,26 +311,41 @@ XOnce(i) == /\ pc[i] = "once"
                  ELSE UNCHANGED X
             /\ mon' = IF X.once[KindOf(i)] = "free" /\ S.cur[i] = "global"
                         THEN [mon EXCEPT !.first[KindOf(i)] = S.val[i]] ELSE mon
-            /\ Go(i, "store") /\ UNCHANGED <<M, T, S, cnt>>
+            /\ Go(i, "store") /\ UNCHANGED <<M, T, S, V, cnt>>
 XStore(i) == /\ pc[i] = "store" /\ X' = [X EXCEPT !.g[KindOf(i)] = S.val[i]] /\ Go(i, "ret")
-             /\ UNCHANGED <<M, T, S, cnt, mon>>
+             /\ UNCHANGED <<M, T, S, V, cnt, mon>>
 XUCall(u) == /\ pc[u] = "use" /\ Go(u, "load")
-             /\ mon' = [mon EXCEPT !.after[u] = mon.setRet[KindOf(u)]] /\ UNCHANGED <<M, T, X, S, cnt>>
+             /\ mon' = [mon EXCEPT !.after[u] = mon.setRet[KindOf(u)]] /\ UNCHANGED <<M, T, X, S, V, cnt>>
 XULoad(u) == /\ pc[u] = "load"
              /\ mon' = Judge(mon, u, KindOf(u), TRUE, X.del[KindOf(u)], "use-lost-after-set")
              /\ cnt' = [cnt EXCEPT ![u] = @ + 1]
-             /\ Go(u, IF cnt[u] + 1 >= UsesPer THEN "done" ELSE "use") /\ UNCHANGED <<M, T, X, S>>
+             /\ Go(u, IF cnt[u] + 1 >= UsesPer THEN "done" ELSE "use") /\ UNCHANGED <<M, T, X, S, V>>
+
+(* ------------------------------------------------ invocations of a registered callback (meter.go:590 unwrapCallback) *)
+(* An SDK may invoke a callback concurrently, each invocation with an Observer that is valid for it only.  The code
+   allocates one unwrapping Observer per invocation; SharedObs models one per callback, overwritten by each Begin. *)
+VBegin(v) == /\ pc[v] = "idle" /\ mon.sdkReg[CbOf[v]] >= 1
+             /\ V' = [V EXCEPT !.uo[CbOf[v]] = v] /\ Go(v, "obs") /\ UNCHANGED <<M, T, X, S, cnt, mon>>
+VObserve(v) == /\ pc[v] = "obs"
+               /\ LET to == IF SharedObs THEN V.uo[CbOf[v]] ELSE v IN
+                  mon' = [mon EXCEPT !.bad = @ \cup (IF to # v THEN {"observation-cross-delivered"} ELSE {})]
+               /\ cnt' = [cnt EXCEPT ![v] = @ + 1]
+               /\ Go(v, IF cnt[v] + 1 >= 2 THEN "done" ELSE "obs") /\ UNCHANGED <<M, T, X, S, V>>
+(* the callback never reached an SDK (no installation, refused, unregistered before): nothing to invoke *)
+VSkip(v) == /\ pc[v] = "idle" /\ mon.sdkReg[CbOf[v]] = 0 /\ \A p \in Procs \ Invokers : pc[p] = "done"
+            /\ Go(v, "done") /\ UNCHANGED <<M, T, X, S, V, cnt, mon>>
 
 PNext(p) ==
   \/ p \in Insts /\ (SBegin(p) \/ SCall(p) \/ SRet(p))
   \/ p \in MInst /\ (IOnce(p) \/ IOnceWait(p) \/ IProvLock(p) \/ (\E m \in Meters : IMeterLock(p, m))
                      \/ IDelegateMeter(p) \/ (\E x \in Owners : IInst(p, x)) \/ IRegLock(p) \/ IReg(p)
                      \/ IMeterUnlock(p) \/ IProvUnlock(p) \/ IStore(p))
-  \/ p \in Owners /\ (OGet(p) \/ OMeter(p) \/ OInst(p) \/ RCall(p) \/ RLoad(p)
+  \/ p \in Invokers /\ (VBegin(p) \/ VObserve(p) \/ VSkip(p))
+  \/ p \in Owners /\ (OGet(p) \/ OMeter(p) \/ OMeterCompute(p) \/ OMeterInsert(p) \/ OInst(p) \/ RCall(p) \/ RLoad(p)
                       \/ GRegister(p) \/ GUnregCall(p) \/ GUnregLock(p) \/ GUnreg(p) \/ GURet(p))
   \/ p \in TInst /\ (TIOnce(p) \/ TIOnceWait(p) \/ TIProvLock(p) \/ (\E t \in Tracers : TITracer(p, t))
                      \/ TIProvUnlock(p) \/ TIStore(p))
-  \/ p \in TUsers /\ (UGet(p) \/ UTracer(p) \/ UCall(p) \/ ULoad(p))
+  \/ p \in TUsers /\ (UGet(p) \/ UTracer(p) \/ UTracerCompute(p) \/ UTracerInsert(p) \/ UCall(p) \/ ULoad(p))
   \/ p \in XI /\ (XOnce(p) \/ XStore(p))
   \/ p \in XU /\ (XUCall(p) \/ XULoad(p))
 Next ==
@@ -296,11 +353,12 @@ Next ==
   \/ \E i \in MInst : \/ IOnce(i) \/ IOnceWait(i) \/ IProvLock(i) \/ (\E m \in Meters : IMeterLock(i, m))
                        \/ IDelegateMeter(i) \/ (\E x \in Owners : IInst(i, x)) \/ IRegLock(i) \/ IReg(i)
                        \/ IMeterUnlock(i) \/ IProvUnlock(i) \/ IStore(i)
-  \/ \E c \in Owners : \/ OGet(c) \/ OMeter(c) \/ OInst(c) \/ RCall(c) \/ RLoad(c)
+  \/ \E v \in Invokers : VBegin(v) \/ VObserve(v) \/ VSkip(v)
+  \/ \E c \in Owners : \/ OGet(c) \/ OMeter(c) \/ OMeterCompute(c) \/ OMeterInsert(c) \/ OInst(c) \/ RCall(c) \/ RLoad(c)
                         \/ GRegister(c) \/ GUnregCall(c) \/ GUnregLock(c) \/ GUnreg(c) \/ GURet(c)
   \/ \E i \in TInst : \/ TIOnce(i) \/ TIOnceWait(i) \/ TIProvLock(i) \/ (\E t \in Tracers : TITracer(i, t))
                        \/ TIProvUnlock(i) \/ TIStore(i)
-  \/ \E u \in TUsers : UGet(u) \/ UTracer(u) \/ UCall(u) \/ ULoad(u)
+  \/ \E u \in TUsers : UGet(u) \/ UTracer(u) \/ UTracerCompute(u) \/ UTracerInsert(u) \/ UCall(u) \/ ULoad(u)
   \/ \E i \in XI : XOnce(i) \/ XStore(i)
   \/ \E u \in XU : XUCall(u) \/ XULoad(u)
 Spec == Init /\ [][Next]_vars
@@ -312,10 +370,13 @@ RegisteredAtMostOnce == \A g \in Registrars : mon.sdkReg[g] <= 1
 (* each callback whose RegisterCallback returned and that nobody unregisters is registered with the SDK once
    an installation of a real provider has returned *)
 CallbackConnected == mon.setRet["mp"] =>
-  \A g \in mon.regRet \ mon.unregCalled : mon.sdkReg[g] = 1 /\ mon.sdkAct[g] = 1
+  \A g \in (mon.regRet \ mon.unregCalled) \ (RefuseReg \cup RefuseInst) : mon.sdkReg[g] = 1 /\ mon.sdkAct[g] = 1
 (* no placeholder instrument / tracer is left without delegate once a real installation returned *)
-InstConnected == mon.setRet["mp"] => \A x \in Owners : M.ikind[x] = "global" => M.idel[x] # "none"
-TracerConnected == mon.setRet["tp"] => \A u \in TUsers : T.handle[u] = "global" => T.tdel[TracerOf[u]] # "none"
+(* (a refusal by the delegate affects the refused instrument only) *)
+InstConnected == mon.setRet["mp"] => \A x \in Owners : /\ M.ikind[x] = "global" /\ x \notin RefuseInst => M.idel[x] # "none"
+                                                        /\ M.ikind[x] # "orphan" /\ M.handle[x] # "orphan"
+TracerConnected == mon.setRet["tp"] => \A u \in TUsers : /\ T.handle[u] = "global" => T.tdel[TracerOf[u]] # "none"
+                                                          /\ T.handle[u] # "orphan"
 (* the one-time hand-over is used up only by a real provider, never by a self-set *)
 OnceOnlyByReal == /\ M.once # "free" => mon.first["mp"] \in Real \/ M.once = "running"
                   /\ M.once = "done" => M.pdel \in Real
